@@ -67,6 +67,26 @@ void binary_case(size_t n, std::pair<size_t, size_t> wa) {
   }
 }
 
+// the same object on both sides of an operator
+template <size_t o>
+void alias_case(size_t n) {
+  auto g = gridpoints(n);
+  Grid<Real> grid(g);
+  Real x = Real::var("x"), c = Real::var("c");
+  for (auto w : windows(n)) {
+    auto a = mkspline<o>(grid, w.first, w.second, "a");
+    auto A = [&](size_t gi) { return piece_at(a, g, gi, x); };
+    std::string k = "w" + W(w) + "/";
+    { auto t = a; auto *p = &t; t -= *p; same_function(k + "t-=t", t, g, n, x, [&](size_t) { return Real(0); }); }
+    { auto t = a; auto *p = &t; t += *p; same_function(k + "t+=t", t, g, n, x, [&](size_t gi) { return A(gi) + A(gi); }); }
+    { auto t = a; auto *p = &t; t = *p; t *= c; t -= a; same_function(k + "t=t;t*=c;t-=a", t, g, n, x, [&](size_t gi) { return A(gi) * c - A(gi); }); }
+    same_function(k + "a+a", a + a, g, n, x, [&](size_t gi) { return A(gi) + A(gi); });
+    same_function(k + "a-a", a - a, g, n, x, [&](size_t) { return Real(0); });
+    same_function(k + "a*a", a * a, g, n, x, [&](size_t gi) { return A(gi) * A(gi); });
+    { std::vector<Spline<Real, o>> S{a, a}; std::vector<Real> C{c, c}; same_function(k + "lincomb(a,a)", bspline::linearCombination(C, S), g, n, x, [&](size_t gi) { return c * A(gi) + c * A(gi); }); }
+  }
+}
+
 template <size_t oa>
 void scalar_case(size_t n) {
   auto &E = Engine::get();
@@ -148,6 +168,7 @@ void add_bin_all(std::vector<Case> &cases) {
 template <size_t o>
 void add_rest(std::vector<Case> &cases) {
   for (size_t n = 2; n <= MAXN; n++) cases.push_back({"scalar/o" + std::to_string(o) + "/n" + std::to_string(n), [=] { scalar_case<o>(n); }});
+  for (size_t n = 2; n <= MAXN; n++) cases.push_back({"alias/o" + std::to_string(o) + "/n" + std::to_string(n), [=] { alias_case<o>(n); }});
   for (size_t n = 2; n <= LCN; n++)
     for (auto w0 : windows(n))
       for (auto w1 : windows(n))
